@@ -91,6 +91,8 @@ def build(nlines, shape, picks, a, b):
     bodies = []
     feats = set()
     pending_next = {}
+    pending_owner = {}
+    exits = []  # (construct, target line index) of jumps out of a multi-line FOR body
     for li in range(nlines):
         stmts = []
         if li in pending_next:
@@ -115,12 +117,20 @@ def build(nlines, shape, picks, a, b):
                     if li + 1 >= nlines:
                         return None, None
                     # a FOR opened inside an IF branch (after an IF on the same line) and closed on a later line is not lexically nested
-                    if any(picks.get((li, k)) is not None and picks[(li, k)][0][1].startswith("IF") for k in range(si)):
+                    if any(picks.get((li, k)) is not None and _re.search(r"\bIF\b", picks[(li, k)][0][1]) for k in range(si)):
                         return None, None
                     if li + 1 in pending_next:
                         return None, None
                     pending_next[li + 1] = nxt.rstrip(":")
+                    pending_owner[li + 1] = (li, si)
+                    if "{t}" in tpl and p[1] in nums:
+                        exits.append(((li, si), nums.index(p[1])))
         bodies.append(":".join(stmts))
+    # a jump out of one FOR body onto the line that starts with the NEXT of a *different* FOR re-enters that loop from outside:
+    # FOR/NEXT pairing by execution order, outside the (lexically nested) fragment
+    for owner, ti in exits:
+        if ti in pending_owner and pending_owner[ti] != owner:
+            return None, None
     lines = [f"5 A={a}:B={b}"] + [f"{n} {bd}" for n, bd in zip(nums, bodies)] + ['80 PRINT "E":END', '100 PRINT "S1":RETURN', '110 PRINT "S2":RETURN']
     return "\n".join(lines) + "\n", feats
 
@@ -192,7 +202,7 @@ def work(chunk):
         for (a, b) in INPUTS:
             src = text.replace("{A}", str(a)).replace("{B}", str(b))
             for oi, opts in enumerate(OPTSETS):
-                if "level2" in feats and QUICK and oi in (1, 2):
+                if "level2" in feats and oi in (1, 2):
                     continue
                 if "needs-init" in feats and not opts.get("initialize_vars"):
                     continue  # the visit counter of line 0 is read before it is assigned
@@ -210,6 +220,8 @@ def run(run):
     QUICK = run.tier == "quick"
     if QUICK:
         run.caps.append("quick: programs with two constructs use a reduced second menu, two jump targets per construct and the option sets {} and {filter, initialize_vars}")
+    else:
+        run.caps.append("thorough: programs with two constructs use two jump targets per construct and the option sets {} and {filter, initialize_vars}")
     run.rule = ("programs = line shapes x positions x construct menu x jump targets with at most 2 constructs; each run on 5 input vectors x 4 option sets; distinct = distinct skeletons; "
                 "non-trivial = skeleton with >= 1 construct on which at least one run produced a verdict")
     run.assumptions = ["Color BASIC: FOR is bottom-tested (body runs once for an empty range), NEXT without variable closes the innermost FOR, IF branches own the rest of the line, ELSE binds to the nearest IF",
